@@ -261,15 +261,19 @@ Definition eval_bin (op : binop) (a b : val) : res val :=
       | VNull, (VStr _ | VNull) | VStr _, VNull => Ok VNull
       | _, _ => Fail E_TYPE
       end
-  | OAnd =>
+  | OAnd =>   (* SQL three-valued logic: false AND null = false *)
       match a, b with
       | VInt x, VInt y => Ok (of_bool (truthy a && truthy b))
-      | _, _ => if (is_null a || is_null b) then Ok VNull else Fail E_TYPE
+      | VInt x, VNull | VNull, VInt x => if Z.eqb x 0 then Ok (of_bool false) else Ok VNull
+      | VNull, VNull => Ok VNull
+      | _, _ => Fail E_TYPE
       end
-  | OOr =>
+  | OOr =>    (* true OR null = true *)
       match a, b with
       | VInt x, VInt y => Ok (of_bool (truthy a || truthy b))
-      | _, _ => if (is_null a || is_null b) then Ok VNull else Fail E_TYPE
+      | VInt x, VNull | VNull, VInt x => if Z.eqb x 0 then Ok VNull else Ok (of_bool true)
+      | VNull, VNull => Ok VNull
+      | _, _ => Fail E_TYPE
       end
   | _ => cmp_val op a b
   end.
